@@ -160,14 +160,15 @@ def check_filter(ctx, F, cfg, type_path, acc_of, elem_ty, conv_ref, key, flag=No
         if not ctx.oblige(key + "|loop", len(nexts) == 1 and p.loops == 1, "the list decoder is not a single loop over `seq.next_element()` (%d calls, %d loops on a path)" % (len(nexts), p.loops), cfg=cfg, where=where, nontrivial=False):
             continue
         N = nexts[0]
-        elem_tys.add(W.erase_lt((N.node.get("targs") or [None, ""])[1] or ""))
+        elem_tys.add(W.erase_lt(sym.type_arg(N, (N.node.get("targs") or [None, ""])[1] or "")))
         nk = sym.lookup(p, N.term)
         body_opt = sym.proj(N.term, S.OK, 0)
         ok_known = sym.lookup(p, body_opt)
         muts = [e for e in p.effects if e.callee not in (NEXT, conv_path)]
         convs = [e for e in p.effects if e.callee == conv_path]
         r = p.result
-        if p.ret_loop_depth > 0:
+        if p.ret_loop_depth > 0 or (r is not None and r[0] == "ctor" and r[1] == S.ERR):
+            # left with an error: from inside the loop, or through the `?` applied to an expanded helper that returned from its loop
             good = nk == S.ERR and r is not None and r[0] == "ctor" and r[1] == S.ERR and D.strip_conv(r[2][0]) == sym.proj(N.term, S.ERR, 0) and not muts
             ctx.oblige(key + "|only-cbor-error|%d" % i, good, "the list decoder returns early with %s when %s: only a fault in next_element() itself may fail the request" % (S.show(r)[:80], [S.show_atom(a) for a in p.atoms][-2:]), cfg=cfg, where=where)
             continue
